@@ -31,6 +31,15 @@ Theorem C14_outside_preserved :
 Proof. exact outside_preserved_lemma. Qed.
 Print Assumptions C14_outside_preserved.
 
+(* ... in the same order, and nothing else is added or removed: the length of the output is the length of
+   the text minus the bytes inside the spans plus 8 per span. *)
+Theorem C14_order_and_length :
+  forall t out spans, redact_email t = Ok (out, spans) ->
+  length out + span_bytes spans = length t + 8 * length spans /\
+  forall i j, i < j -> ~ covered spans i -> ~ covered spans j -> out_index 0 spans i < out_index 0 spans j.
+Proof. exact order_and_length_lemma. Qed.
+Print Assumptions C14_order_and_length.
+
 (* Completeness: every occurrence of an address - wherever it sits, whatever surrounds it, overlapping or
    back to back with others, with a domain cut by the end of the text - lies inside the union of the spans. *)
 Theorem C14_complete :
@@ -55,6 +64,21 @@ Theorem C14_sound :
   exists s a, s <= es /\ es <= a /\ a < ee /\ email_at t s a ee.
 Proof. exact sound_lemma. Qed.
 Print Assumptions C14_sound.
+
+(* A span consists of address characters and '@' only, all ASCII: whatever surrounds an address -
+   multi-byte characters, escape sequences, stray '@' signs - is outside every span, and no multi-byte
+   character is ever cut. *)
+Theorem C14_spans_are_ascii :
+  forall t out spans es ee i, redact_email t = Ok (out, spans) -> In (es, ee) spans -> es <= i < ee ->
+  exists c, nth_error t i = Some c /\ (addr_ch c \/ c = 64%N) /\ (c < 128)%N.
+Proof. exact span_chars_lemma. Qed.
+Print Assumptions C14_spans_are_ascii.
+
+(* The specification is unambiguous: an '@' belongs to at most one address. *)
+Theorem C14_spec_deterministic :
+  forall t s a e s' e', email_at t s a e -> email_at t s' a e' -> s = s' /\ e = e'.
+Proof. exact email_at_deterministic. Qed.
+Print Assumptions C14_spec_deterministic.
 
 (* Text containing no address is unchanged. *)
 Theorem C14_no_address_unchanged :
